@@ -60,11 +60,23 @@ class Scratch:
         tempfile.tempdir = self.tmp
         self._n = 0
 
+    # database file names (rotated): an ordinary one, one that looks like a tempfile name, one without extension, one
+    # with a blank, one that looks like a backup / scratch file of another
+    DB_NAMES = ["db.csv", "db.csv", "tmpa1b2c3d4", "db", "my data.csv", "db.csv.tmp", "db.csv", ".db.csv"]
+    BYSTANDERS = {"tmpzzzzzzzz": b"not yours\n", "db.csv.bak": b"2020-01-01T00:00:00+00:00,old\r\n", "notes.txt": b"", ".db.csv.swp": b"\x00\x01"}
+
     def new_db_path(self, suffix=".csv"):
         self._n += 1
         d = os.path.join(self.db, f"d{self._n}")
         os.mkdir(d)
-        return os.path.join(d, "db" + suffix)
+        name = self.DB_NAMES[self._n % len(self.DB_NAMES)] if suffix == ".csv" else "db" + suffix
+        if self._n % 3 == 1:
+            # other people's files next to the database: no operation may touch them
+            for bn, content in self.BYSTANDERS.items():
+                if bn != name:
+                    with open(os.path.join(d, bn), "wb") as f:
+                        f.write(content)
+        return os.path.join(d, name)
 
     def drop_db_dir(self, path):
         shutil.rmtree(os.path.dirname(path), ignore_errors=True)
